@@ -5,7 +5,7 @@ package main
 
 import (
 	"fmt"
-	_ "go/token"
+	"go/token"
 	"go/types"
 	"strings"
 
@@ -93,17 +93,26 @@ func checkC17(c *Ctx) {
 					ymd = false
 				}
 			}
-			// reached only when Weekday()==Sunday
-			sunday := false
-			for _, f := range dominatingFacts(r.Block()) {
+			// reached only when Weekday()==Sunday - or, as a defensive bound that cannot be hit, after a
+			// loop counter has reached a constant >= 6 (lemma L-sunday: at most six single-day steps back
+			// reach a Sunday; the stepping is checked below)
+			sunday := onEveryPath(r.Block(), func(f EdgeFact) bool {
 				if fx, fy, equal, ok := eqFact(f); ok && equal {
 					if w, ok := fx.(*ssa.Call); ok && w.Call.StaticCallee() != nil && w.Call.StaticCallee().Name() == "Weekday" {
 						if k, ok := constInt(fy); ok && k == 0 && (base == nil || trivialPhi(w.Call.Args[0]) == trivialPhi(base)) {
-							sunday = true
+							return true
 						}
 					}
 				}
-			}
+				if bo, ok := f.Cond.(*ssa.BinOp); ok && bo.Op == token.LSS && !f.Val {
+					if bound, isCount := countingLoopIndex(bo.X); isCount && bound == bo.Y {
+						if k, isC := constInt(bo.Y); isC && k >= 6 {
+							return true
+						}
+					}
+				}
+				return false
+			})
 			good = z && utc && ymd && sunday
 		}
 		if good {
@@ -132,6 +141,29 @@ func checkC17(c *Ctx) {
 	t.IsSanitizer = func(call *ssa.Call) bool { return call.Call.StaticCallee() == quant }
 	t.Scope = func(fn *ssa.Function) bool { return fn == newFn }
 	t.Run()
+	// sinks: the Handler fields that the decode path reads (a field that only a new getter reads
+	// cannot influence any reported time)
+	readOnPath := map[*types.Var]bool{}
+	if getMsg := P.Func("rtcm/handler", "(*Handler).GetMessage"); getMsg != nil {
+		for g := range P.ReachableModule([]*ssa.Function{getMsg}) {
+			eachInstr(g, func(ins ssa.Instruction) {
+				if fa, ok := ins.(*ssa.FieldAddr); ok {
+					if fv, _ := fieldOf(fa); fv != nil {
+						for _, r := range referrers(fa) {
+							if _, isStore := r.(*ssa.Store); !isStore {
+								readOnPath[fv] = true
+							}
+						}
+					}
+				}
+				if fl, ok := ins.(*ssa.Field); ok {
+					if st, ok := fl.X.Type().Underlying().(*types.Struct); ok {
+						readOnPath[st.Field(fl.Field)] = true
+					}
+				}
+			})
+		}
+	}
 	stores := 0
 	eachInstr(newFn, func(ins ssa.Instruction) {
 		st, ok := ins.(*ssa.Store)
@@ -144,6 +176,10 @@ func checkC17(c *Ctx) {
 		}
 		f, _ := fieldOf(fa)
 		if f == nil || !types.Identical(fa.X.Type().Underlying().(*types.Pointer).Elem(), H) {
+			return
+		}
+		if !readOnPath[f] {
+			c.OK("C17-R1", "not-read-by-decoding("+f.Name()+")", ins.Pos(), "no function reachable from the single-frame decoder reads this field")
 			return
 		}
 		stores++
